@@ -7,6 +7,11 @@ strobe registers) and, per operation, a normalised observation
      "fifo": [bytes after the op], "kil": int|None, "isr": int|None, "irq_enabled": bool|None,
      "consumed": bool (the op is an explicit consumption of the queue), "popped": int|None, "injected": bool}
 
+Verbs: press / release / kol / koh / inject / consume / pop / scan / ttick / kil / peek / ..., plus "st" (an executed
+store instruction; `strobes` = [[reg, byte], ...] the strobe-register writes it means, possibly empty), "ld" (an
+executed load; `kil` present when it covers the key-input register) and "nop".  A record may carry "op" = index of
+the operation it belongs to (one executed instruction can be cut into several records).
+
 `ticks[i].certain` is False when the adapter cannot prove that the op performed a scan tick (Rust KIL read);
 `events is None` means events of that tick are not observable (they were consumed inside the call).
 
@@ -111,7 +116,7 @@ def judge(info: Dict[str, Any], ops: List[Dict[str, Any]]) -> Tuple[Verdicts, Di
     facts = {"press_events": 0, "release_events": 0, "repeat_events": 0, "row_share": False,
              "strobe_change_while_held": False, "overflow": False, "kil_nonzero": 0, "kil_reads": 0,
              "keyi_rises": 0, "ticks": 0, "max_fifo": 0, "lossy": 0, "redundant_press": 0, "chatter": 0,
-             "redundant_release": 0}
+             "redundant_release": 0, "cpu_strobe_stores": 0, "cpu_wide_strobe_stores": 0, "parked_release": 0}
 
     def key(code: int) -> KeyHist:
         k = keys.get(code)
@@ -168,12 +173,20 @@ def judge(info: Dict[str, Any], ops: List[Dict[str, Any]]) -> Tuple[Verdicts, Di
                 k.redundant = False
                 if k.g != "idle":
                     k.bounced = True
-        elif verb in ("kol", "koh"):
+        elif verb in ("kol", "koh", "st"):
+            # "st": a store instruction whose operand covers the strobe registers; op["strobes"] lists the
+            # register writes it means byte by byte (possibly none, possibly both registers)
+            writes = [(verb, args[0])] if verb != "st" else [(w[0], w[1]) for w in op.get("strobes", [])]
+            if verb == "st" and writes:
+                facts["cpu_strobe_stores"] += 1
+                if op.get("wide"):
+                    facts["cpu_wide_strobe_stores"] += 1
             before = strobed()
-            if verb == "kol":
-                kol = args[0] & 0xFF
-            else:
-                koh = args[0] & 0xFF
+            for reg, val in writes:
+                if reg == "kol":
+                    kol = int(val) & 0xFF
+                else:
+                    koh = int(val) & 0xFF
             after = strobed()
             if before != after:
                 for k in keys.values():
@@ -213,6 +226,9 @@ def judge(info: Dict[str, Any], ops: List[Dict[str, Any]]) -> Tuple[Verdicts, Di
             events = tick.get("events")
             facts["ticks"] += 1
             act = strobed()
+            if not act and not any(k.held for k in keys.values()) and \
+                    any(k.g == "pressed" and k.rel_lo is not None for k in keys.values()):
+                facts["parked_release"] += 1   # coverage only: release debounce pending, strobes parked, nothing held
             for k in keys.values():
                 hs = k.held and (k.col in act)
                 if hs:
